@@ -383,7 +383,18 @@ func (c *ClientConn) Close() error {
 
 // SendDisconnectは、Disconnectメッセージを送信します。
 func (c *ClientConn) SendDisconnect(ctx context.Context, msg *message.Disconnect) error {
-	return c.transport.Write(msg)
+	// bounded by the contexts like the write of a request: a transport that is redialling, or a peer that
+	// stopped reading, keeps the write waiting (closing the transport, which the caller does next, releases it)
+	written := make(chan error, 1)
+	go func() { written <- c.transport.Write(msg) }()
+	select {
+	case <-ctx.Done():
+		return ctx.Err()
+	case <-c.ctx.Done():
+		return errors.ErrConnectionClosed
+	case err := <-written:
+		return err
+	}
 }
 
 // SendUpstreamMetadataは、UpstreamMetadataを送信します。
